@@ -295,6 +295,9 @@ func runC18(c *core.Ctx) {
 				if !(len(st) == 1 && st[0].A[0].Op == "faddr" && st[0].A[0].Aux == fVal && paramOf(st[0].A[1], put, 2) && p.Exit == ir.ExitReturn) {
 					okR, whyR = false, "Put on an existing key must only overwrite the node's value"
 				}
+			} else if p.Exit == ir.ExitPanic && mk != nil && tallerThanList(p, put, mk, travOf[put], levelFields(c, ctor)) {
+				// an assertion `if rank > len(path) { panic }`: the node constructor's height is bounded by the number of
+				// levels (level-loops/skiplist.<mkNode>), so this exit is unreachable and is no result of Put
 			} else if p.To == nil && !skipsRotatedLoop(an, p) {
 				okR, whyR = false, "Put of a new key returns without splicing"
 			}
@@ -1105,4 +1108,58 @@ func printWalk(c *core.Ctx, fn *ssa.Function) {
 	if ok {
 		c.Ok(rule, name, fn.Pos(), "cursor := list.head; while cursor != nil { render cursor; cursor = cursor.fingers[0] }")
 	}
+}
+
+// tallerThanList: the path p of Put has decided "height of the new node > number of levels" (the height being the
+// integer result of the node constructor call mk, the number of levels len(path) / len(head.fingers) / the level field).
+func tallerThanList(p *ir.Path, put *ssa.Function, mk *ir.Step, trav *ssa.Function, lvFields map[string]bool) bool {
+	list := &ir.Term{Op: "param", Aux: put.Params[0].Name()}
+	isRank := func(t *ir.Term) bool {
+		if ir.Same(t, mk.R) {
+			return true
+		}
+		return t.Op == "extract" && len(t.Args) == 1 && ir.Same(t.Args[0], mk.R) && t.Aux == "0"
+	}
+	var travR *ir.Term
+	for _, st := range p.Events(ir.KCall) {
+		if st.Static == trav {
+			travR = st.R
+		}
+	}
+	isLevels := func(t *ir.Term) bool {
+		if t.Op == "len" && len(t.Args) == 1 {
+			x := t.Args[0]
+			if travR != nil && x.Op == "extract" && x.Aux == "1" && ir.Same(x.Args[0], travR) {
+				return true
+			}
+			if x.Op == "load" && len(x.Args) == 1 && x.Args[0].Op == "faddr" && (x.Args[0].Aux == fPath && ir.Same(x.Args[0].Args[0], list) || x.Args[0].Aux == fFingers) {
+				return true
+			}
+		}
+		return t.Op == "load" && len(t.Args) == 1 && t.Args[0].Op == "faddr" && lvFields[t.Args[0].Aux]
+	}
+	flip := map[string]string{"<": ">", "<=": ">=", ">": "<", ">=": "<="}
+	neg := map[string]string{"<": ">=", "<=": ">", ">": "<=", ">=": "<"}
+	for _, b := range p.Events(ir.KBranch) {
+		at := b.Atom
+		if at.Op != "bin" || len(at.Args) != 2 || flip[at.Aux] == "" {
+			continue
+		}
+		rel := ""
+		switch {
+		case isRank(at.Args[0]) && isLevels(at.Args[1]):
+			rel = at.Aux
+		case isLevels(at.Args[0]) && isRank(at.Args[1]):
+			rel = flip[at.Aux]
+		default:
+			continue
+		}
+		if !b.Pol {
+			rel = neg[rel]
+		}
+		if rel == ">" {
+			return true
+		}
+	}
+	return false
 }
